@@ -121,6 +121,14 @@ func TestVerifE5Replay(t *testing.T) {
 		vfE5ReplayExitAnswer(t, name)
 	case "topic_double_delete_unlinks_fresh":
 		vfE5ReplayDoubleDelete(t, name)
+	case "chan_double_delete_unlinks_fresh", "chan_double_delete_waits":
+		vfE5ReplayChanDoubleDelete(t, name)
+	case "empty_races_req_survives":
+		vfE5ReplayEmptyReqSurvives(t, name)
+	case "exit_races_new_topic_publish":
+		vfE5ReplayExitNewTopic(t, name)
+	case "sync_every_zero_delete", "sync_every_negative_delete", "sync_every_one_delete":
+		vfE5ReplaySyncEvery(t, name)
 	case "topic_delete_races_sub", "topic_delete_races_sub_early", "topic_delete_races_create_channel":
 		vfE5ReplayTopicDeleteSub(t, name)
 	case "f9_pump_holds":
@@ -344,22 +352,35 @@ func vfE5ReplayF9Pump(t *testing.T, name string) {
 	conn.Write([]byte("SUB f9 c\n"))
 	conn.Write([]byte("RDY 1\n"))
 	g.wait(t)
-	exit := vfE5Try(10*time.Second, func() { n.Exit() })
+	// a tree whose Exit waits for the connection handlers (and the pumps they join) before it flushes does not
+	// finish while the pump is parked; the unchanged tree does
+	exitDone := make(chan string, 1)
+	go func() { exitDone <- vfE5Try(20*time.Second, func() { n.Exit() }) }()
+	exit, early := "", false
+	select {
+	case exit = <-exitDone:
+		early = true
+	case <-time.After(500 * time.Millisecond):
+	}
 	close(g.release)
-	// the pump now registers m in the in-flight map of the closed channel and fails to send it
-	for d := time.Now().Add(2 * time.Second); time.Now().Before(d); {
-		ch.inFlightMutex.Lock()
-		k := len(ch.inFlightMessages)
-		ch.inFlightMutex.Unlock()
-		if k > 0 {
-			break
+	if !early {
+		exit = <-exitDone
+	} else {
+		// the pump now registers m in the in-flight map of the closed channel and fails to send it
+		for d := time.Now().Add(2 * time.Second); time.Now().Before(d); {
+			ch.inFlightMutex.Lock()
+			k := len(ch.inFlightMessages)
+			ch.inFlightMutex.Unlock()
+			if k > 0 {
+				break
+			}
+			time.Sleep(time.Millisecond)
 		}
-		time.Sleep(time.Millisecond)
 	}
 	conn.Close()
 	n2 := vfE5Restart(t, opts, dir)
 	depth := vfE5TotalDepth(n2, "f9", "c")
-	fmt.Printf("E5REPLAY %s acked=%v exit=%s depth_after_restart=%d lost=%v\n", name, acked, exit, depth, acked && depth == 0)
+	fmt.Printf("E5REPLAY %s acked=%v exit=%s exit_finished_while_pump_parked=%v depth_after_restart=%d lost=%v\n", name, acked, exit, early, depth, acked && depth == 0)
 	n2.Exit()
 }
 
@@ -1218,8 +1239,20 @@ func vfE5ReplayDoubleDelete(t *testing.T, name string) {
 	conn.Write([]byte("  V2"))
 	conn.Write([]byte("SUB tz c\n"))
 	fb, _ := vfE5Frames(conn, 300*time.Millisecond)
-	acked := t2.PutMessage(NewMessage(t2.GenerateID(), []byte("m1"))) == nil
-	time.Sleep(50 * time.Millisecond)
+	// a disk backlog of several messages on the fresh topic (mem-queue-size 0: every message goes through the
+	// topic's and the channel's disk queue, whose file names are those of the object still being deleted)
+	const backlog = 4
+	ackedN := 0
+	for i := 0; i < backlog; i++ {
+		if t2.PutMessage(NewMessage(t2.GenerateID(), []byte(fmt.Sprintf("m%d", i+1)))) == nil {
+			ackedN++
+		}
+	}
+	acked := ackedN > 0
+	c2, _ := t2.GetExistingChannel("c")
+	for d := time.Now().Add(2 * time.Second); fresh && c2 != nil && c2.Depth() < int64(ackedN) && time.Now().Before(d); {
+		time.Sleep(time.Millisecond)
+	}
 	close(g.release)
 	r1 := <-d1
 	time.Sleep(50 * time.Millisecond)
@@ -1233,7 +1266,340 @@ func vfE5ReplayDoubleDelete(t *testing.T, name string) {
 			got = true
 		}
 	}
-	wrong := fresh && d2err == nil && (!stillMapped || (acked && !got))
-	fmt.Printf("E5REPLAY %s d1=%s d2=%s d2_err=%v fresh_topic=%v b_sub=%s acked=%v fresh_still_in_map=%v fresh_exiting=%v b_closed=%v b_got_message=%v older_delete_hit_fresh_topic=%v\n",
-		name, r1, d2, d2err != nil, fresh, strings.Join(fb, ","), acked, stillMapped, t2.Exiting(), closed, got, wrong)
+	// what the older deletion did to the files of the fresh topic: every acknowledged message of the fresh
+	// topic must survive a graceful restart (it was never deleted)
+	filesNow := 0
+	ents, _ := os.ReadDir(dir)
+	for _, e := range ents {
+		if strings.HasPrefix(e.Name(), "tz.diskqueue") || strings.HasPrefix(e.Name(), "tz:c.diskqueue") {
+			filesNow++
+		}
+	}
+	depthAfter := int64(-2)
+	freshExiting := t2.Exiting()
+	if fresh && stillMapped {
+		conn.Close()
+		n.Exit()
+		n2 := vfE5Restart(t, opts, dir)
+		depthAfter = vfE5TotalDepth(n2, "tz", "c")
+		n2.Exit()
+	}
+	lostBacklog := fresh && stillMapped && depthAfter != int64(ackedN)
+	wrong := fresh && d2err == nil && (!stillMapped || (acked && !got) || lostBacklog)
+	fmt.Printf("E5REPLAY %s d1=%s d2=%s d2_err=%v fresh_topic=%v b_sub=%s acked=%v acked_n=%d fresh_still_in_map=%v fresh_exiting=%v b_closed=%v b_got_message=%v fresh_files=%d depth_after_restart=%d fresh_backlog_lost=%v older_delete_hit_fresh_topic=%v\n",
+		name, r1, d2, d2err != nil, fresh, strings.Join(fb, ","), acked, ackedN, stillMapped, freshExiting, closed, got, filesNow, depthAfter, lostBacklog, wrong)
+}
+
+// ---- round 7: channel-deletion race model (lean/Nsq/Model/ChanDelete.lean) ----
+
+func vfE5Dial(t *testing.T, n *NSQD) net.Conn {
+	conn, err := net.DialTimeout("tcp", n.RealTCPAddr().String(), 2*time.Second)
+	if err != nil {
+		t.Fatal(err)
+	}
+	conn.Write([]byte("  V2"))
+	return conn
+}
+
+func vfE5CountMsgs(frames []string) int {
+	k := 0
+	for _, f := range frames {
+		if f == "m" {
+			k++
+		}
+	}
+	return k
+}
+
+// Two deletions of one channel with a re-creation in between (Props.C08ChanDelete.witnessChanDouble).
+//   chan_double_delete_unlinks_fresh: consumer A is subscribed to tz:c.  D1 = DeleteExistingChannel("c")
+//     is parked at chan.delete.beforeUnlink (channel.Delete() has finished: A closed, queue emptied, files
+//     removed; the dead object is still in channelMap).  D2 = a second DeleteExistingChannel("c") (HTTP delete,
+//     or the ephemeral channel's deleteCallback): its channel.Delete() returns "exiting" (ignored), it
+//     unlinks the name, persists and answers nil.  GetChannel("c") now creates a fresh object; consumer B
+//     subscribes to it and a message is published and fanned out to it.  D1 continues and unlinks *the
+//     name*.  Property: a channel created after a completed deletion is not touched by an older deletion
+//     (it stays in the map, keeps receiving what is published, is listed in the metadata).
+//   chan_double_delete_waits: D1 is parked at chan.delete.afterNotify (inside Channel.exit, holding
+//     exitMutex).  A second deletion must not come back before D1's exit has finished (its Delete() waits
+//     for the exit lock), GetChannel returns the exiting object (no re-creation), a SUB is refused.  This is
+//     the enabling condition of the model's `loserUnlink` step; the leg must be clean on every tree.
+func vfE5ReplayChanDoubleDelete(t *testing.T, name string) {
+	dir := t.TempDir()
+	opts := vfE5Opts(dir)
+	opts.MemQueueSize = 0
+	n, err := New(opts)
+	if err != nil {
+		t.Fatal(err)
+	}
+	n.LoadMetadata()
+	n.PersistMetadata()
+	go n.Main()
+	defer n.Exit()
+	topic := n.GetTopic("tz")
+	topic.GetChannel("keep") // the topic keeps a second channel: its pump stays active whatever happens to c
+	c1 := topic.GetChannel("c")
+	a := vfE5Dial(t, n)
+	defer a.Close()
+	a.Write([]byte("SUB tz c\n"))
+	fa, _ := vfE5Frames(a, 300*time.Millisecond)
+
+	if name == "chan_double_delete_waits" {
+		g := vfE5NewGate("chan.delete.afterNotify")
+		d1 := make(chan string, 1)
+		go func() { d1 <- vfE5Try(20*time.Second, func() { topic.DeleteExistingChannel("c") }) }()
+		g.wait(t)
+		d2 := make(chan string, 1)
+		go func() { d2 <- vfE5Try(20*time.Second, func() { topic.DeleteExistingChannel("c") }) }()
+		early := false
+		select {
+		case <-d2:
+			early = true
+		case <-time.After(300 * time.Millisecond):
+		}
+		got := topic.GetChannel("c")
+		recreated := got != c1
+		b := vfE5Dial(t, n)
+		defer b.Close()
+		b.Write([]byte("SUB tz c\n"))
+		fb, bClosed := vfE5Frames(b, 500*time.Millisecond)
+		bAns := strings.Join(fb, ",")
+		if bClosed {
+			bAns += "+closed"
+		}
+		if bAns == "" {
+			bAns = "none"
+		}
+		close(g.release)
+		r1 := <-d1
+		r2 := "early"
+		if !early {
+			r2 = <-d2
+		}
+		time.Sleep(50 * time.Millisecond)
+		_, aClosed := vfE5Frames(a, 300*time.Millisecond)
+		// B's AddClient waited for exitMutex too: it is answered only now
+		fb2, bClosed2 := vfE5Frames(b, 400*time.Millisecond)
+		bAns += "/" + strings.Join(fb2, ",")
+		if bClosed2 {
+			bAns += "+closed"
+		}
+		_, gerr := topic.GetExistingChannel("c")
+		files := 0
+		ents, _ := os.ReadDir(dir)
+		for _, e := range ents {
+			if strings.HasPrefix(e.Name(), "tz:c.") {
+				files++
+			}
+		}
+		wrong := early || recreated || strings.Contains(bAns, "r:OK") || !aClosed || gerr == nil || files != 0
+		fmt.Printf("E5REPLAY %s a_sub=%s d1=%s d2=%s d2_returned_before_d1_exit=%v recreated_during_delete=%v b_sub=%s a_closed=%v in_map_after=%v files_left=%d wrong=%v\n",
+			name, strings.Join(fa, ","), r1, r2, early, recreated, bAns, aClosed, gerr == nil, files, wrong)
+		return
+	}
+
+	g := vfE5NewGate("chan.delete.beforeUnlink")
+	d1 := make(chan string, 1)
+	go func() { d1 <- vfE5Try(20*time.Second, func() { topic.DeleteExistingChannel("c") }) }()
+	g.wait(t)
+	_, aClosed := vfE5Frames(a, 300*time.Millisecond)
+	var d2err error
+	d2 := vfE5Try(5*time.Second, func() { d2err = topic.DeleteExistingChannel("c") })
+	c2 := topic.GetChannel("c")
+	fresh := c2 != c1 && !c2.Exiting()
+	b := vfE5Dial(t, n)
+	defer b.Close()
+	b.Write([]byte("SUB tz c\n"))
+	fb, _ := vfE5Frames(b, 300*time.Millisecond)
+	acked := 0
+	if topic.PutMessage(NewMessage(topic.GenerateID(), []byte("m1"))) == nil {
+		acked++
+	}
+	for d := time.Now().Add(2 * time.Second); fresh && c2.Depth() < 1 && time.Now().Before(d); {
+		time.Sleep(time.Millisecond)
+	}
+	close(g.release)
+	r1 := <-d1
+	time.Sleep(50 * time.Millisecond)
+	cur, gerr := topic.GetExistingChannel("c")
+	stillMapped := gerr == nil && cur == c2
+	if topic.PutMessage(NewMessage(topic.GenerateID(), []byte("m2"))) == nil {
+		acked++
+	}
+	b.Write([]byte("RDY 2\n"))
+	fm, bClosed := vfE5Frames(b, 700*time.Millisecond)
+	got := vfE5CountMsgs(fm)
+	meta, _ := os.ReadFile(dir + "/nsqd.dat")
+	listed := strings.Contains(string(meta), `"name":"c"`)
+	wrong := fresh && d2err == nil && (!stillMapped || got < acked || !listed)
+	fmt.Printf("E5REPLAY %s a_sub=%s a_closed=%v d1=%s d2=%s d2_err=%v fresh_channel=%v b_sub=%s acked=%d fresh_still_in_map=%v fresh_exiting=%v b_closed=%v b_got_messages=%d listed_in_metadata=%v older_delete_hit_fresh_channel=%v\n",
+		name, strings.Join(fa, ","), aClosed, r1, d2, d2err != nil, fresh, strings.Join(fb, ","), acked, stillMapped, c2.Exiting(), bClosed, got, listed, wrong)
+}
+
+// --sync-every is handed to go-diskqueue unvalidated (nsqd.New checks neither sign nor zero; E9's theorems
+// assume 0 < syncEvery).  With 0 every pass of diskqueue's ioLoop syncs (`count == d.syncEvery` at count 0),
+// so the metadata file that Empty's deleteAllFiles removed is written again before Delete closes the queue.
+//   sync_every_zero_delete / _negative_delete / _one_delete: a disk backlog on tz and tz:c, then
+//   DeleteExistingChannel and DeleteExistingTopic; the files left under the data path are listed; then a
+//   restart-free re-creation must start empty.
+func vfE5ReplaySyncEvery(t *testing.T, name string) {
+	dir := t.TempDir()
+	opts := vfE5Opts(dir)
+	opts.MemQueueSize = 0
+	switch name {
+	case "sync_every_zero_delete":
+		opts.SyncEvery = 0
+	case "sync_every_negative_delete":
+		opts.SyncEvery = -1
+	default:
+		opts.SyncEvery = 1
+	}
+	n, err := New(opts)
+	if err != nil {
+		fmt.Printf("E5REPLAY %s new_refused=true err=%s\n", name, strings.ReplaceAll(err.Error(), " ", "_"))
+		return
+	}
+	n.LoadMetadata()
+	n.PersistMetadata()
+	go n.Main()
+	defer n.Exit()
+	topic := n.GetTopic("tz")
+	topic.Pause() // the topic keeps its own backlog on disk
+	ch := topic.GetChannel("c")
+	for i := 0; i < 3; i++ {
+		ch.PutMessage(NewMessage(topic.GenerateID(), []byte("chan-backlog")))
+		topic.PutMessage(NewMessage(topic.GenerateID(), []byte("topic-backlog")))
+	}
+	depth := ch.Depth() + topic.Depth()
+	list := func(prefix string) []string {
+		var l []string
+		ents, _ := os.ReadDir(dir)
+		for _, e := range ents {
+			if strings.HasPrefix(e.Name(), prefix) {
+				l = append(l, e.Name())
+			}
+		}
+		return l
+	}
+	d1 := vfE5Try(10*time.Second, func() { topic.DeleteExistingChannel("c") })
+	time.Sleep(20 * time.Millisecond)
+	chanLeft := list("tz:c.")
+	d2 := vfE5Try(10*time.Second, func() { n.DeleteExistingTopic("tz") })
+	time.Sleep(20 * time.Millisecond)
+	topicLeft := list("tz.")
+	re := n.GetTopic("tz").GetChannel("c")
+	fmt.Printf("E5REPLAY %s new_refused=false sync_every=%d depth_before=%d delete_chan=%s delete_topic=%s chan_files_left=%s topic_files_left=%s recreated_depth=%d\n",
+		name, opts.SyncEvery, depth, d1, d2, strings.Join(chanLeft, ","), strings.Join(topicLeft, ","), re.Depth()+n.GetTopic("tz").Depth())
+}
+
+// audit-A A1: a publish to a topic that does not exist yet while NSQD.Exit is closing the topics.  Exit is
+// parked at topic.exit.beforeFlush (it holds the NSQD lock and is closing topic "old"); a publisher calls
+// GetTopic("fresh") - it waits for the lock - and PutMessage.  After Exit's loop nobody closes or flushes
+// "fresh": the acknowledged message sits in the memory queue of a topic that is never flushed.
+func vfE5ReplayExitNewTopic(t *testing.T, name string) {
+	dir := t.TempDir()
+	opts := vfE5Opts(dir)
+	opts.MemQueueSize = 10
+	n, err := New(opts)
+	if err != nil {
+		t.Fatal(err)
+	}
+	n.LoadMetadata()
+	n.PersistMetadata()
+	go n.Main()
+	old := n.GetTopic("old")
+	old.GetChannel("c")
+	old.PutMessage(NewMessage(old.GenerateID(), []byte("m-old")))
+	g := vfE5NewGate("topic.exit.beforeFlush")
+	exitDone := make(chan string, 1)
+	go func() { exitDone <- vfE5Try(20*time.Second, func() { n.Exit() }) }()
+	g.wait(t)
+	type pubRes struct {
+		acked   bool
+		exiting bool
+	}
+	pub := make(chan pubRes, 1)
+	go func() {
+		tp := n.GetTopic("fresh") // blocks until Exit releases the NSQD lock
+		err := tp.PutMessage(NewMessage(tp.GenerateID(), []byte("m-fresh")))
+		pub <- pubRes{err == nil, tp.Exiting()}
+	}()
+	time.Sleep(100 * time.Millisecond)
+	close(g.release)
+	exit := <-exitDone
+	var pr pubRes
+	select {
+	case pr = <-pub:
+	case <-time.After(5 * time.Second):
+		fmt.Printf("E5REPLAY %s exit=%s publish=blocked\n", name, exit)
+		return
+	}
+	time.Sleep(50 * time.Millisecond)
+	n2 := vfE5Restart(t, opts, dir)
+	depth := vfE5TotalDepth(n2, "fresh")
+	oldDepth := vfE5TotalDepth(n2, "old", "c")
+	fmt.Printf("E5REPLAY %s exit=%s publish=done acked=%v topic_handed_out_exiting=%v fresh_depth_after_restart=%d old_depth_after_restart=%d lost=%v\n",
+		name, exit, pr.acked, pr.exiting, depth, oldDepth, pr.acked && depth < 1)
+	n2.Exit()
+}
+
+// audit B17: Channel.Empty racing a REQ in progress.  m1 is in flight to a real TCP consumer; its REQ 0 is parked
+// at chan.req.afterPop (out of the in-flight map, not yet back on the queue); Channel.Empty() runs to its end;
+// the REQ continues and puts m1 back on the emptied queue: REQ is answered OK *and* m1 is delivered again after
+// the Empty - no sequential order of the two operations explains that (Props.C08.emptySurvivorSchedule).
+func vfE5ReplayEmptyReqSurvives(t *testing.T, name string) {
+	opts := vfE5Opts(t.TempDir())
+	opts.MemQueueSize = 10
+	opts.ClientTimeout = 60 * time.Second
+	n, err := New(opts)
+	if err != nil {
+		t.Fatal(err)
+	}
+	n.LoadMetadata()
+	go n.Main()
+	defer n.Exit()
+	topic := n.GetTopic("ae")
+	ch := topic.GetChannel("c")
+	m1 := NewMessage(topic.GenerateID(), []byte("one"))
+	topic.PutMessage(m1)
+	conn := vfE5Dial(t, n)
+	defer conn.Close()
+	conn.Write([]byte("SUB ae c\n"))
+	conn.Write([]byte("RDY 1\n"))
+	f1, _ := vfE5Frames(conn, 500*time.Millisecond)
+	g := vfE5NewGate("chan.req.afterPop")
+	conn.Write([]byte("REQ " + string(m1.ID[:]) + " 0\n"))
+	g.wait(t)
+	// a tree where REQ holds the channel's read lock makes Empty wait for the parked REQ; the others let it through
+	empDone := make(chan string, 1)
+	go func() { empDone <- vfE5Try(20*time.Second, func() { ch.Empty() }) }()
+	emp, waited := "", false
+	select {
+	case emp = <-empDone:
+	case <-time.After(400 * time.Millisecond):
+		waited = true
+	}
+	depthAfterEmpty := ch.Depth()
+	close(g.release)
+	if waited {
+		emp = <-empDone
+	}
+	time.Sleep(100 * time.Millisecond)
+	depthAfterReq := ch.Depth()
+	// what the channel still holds once Empty and REQ have both returned (the consumer is ready: a message REQ
+	// put back is delivered at once - before the Empty on a tree where Empty waited, after it otherwise)
+	ch.inFlightMutex.Lock()
+	heldAfter := int64(len(ch.inFlightMessages))
+	ch.inFlightMutex.Unlock()
+	heldAfter += ch.Depth()
+	f2, _ := vfE5Frames(conn, 300*time.Millisecond)
+	again := vfE5CountMsgs(f2)
+	reqErr := false
+	for _, f := range f2 {
+		if strings.HasPrefix(f, "e:E_REQ_FAILED") {
+			reqErr = true
+		}
+	}
+	fmt.Printf("E5REPLAY %s first_delivery=%d empty=%s empty_waited_for_req=%v depth_after_empty=%d depth_after_req=%d req_failed=%v redelivered=%d held_after_both_returned=%d survived=%v\n",
+		name, vfE5CountMsgs(f1), emp, waited, depthAfterEmpty, depthAfterReq, reqErr, again, heldAfter, !reqErr && heldAfter > 0)
 }
